@@ -5,7 +5,12 @@ and the mapping between generated statements and loki IR nodes (through the rend
 from .fprog import gen, harness, interp
 from .fprog.model import walk_stmts, pathstr
 
-PROFILE = gen.profile(print=False, intent_none=True, comments=False, layout='nosemi', max_stmts=6)
+# internal=False: an internal procedure of the generator always reads host variables, which the (intra-procedural)
+# analysis does not see at the CALL (listed known finding of C26/C27, kept alive by its replay file) -- excluded by
+# construction so that every call-related miss the search reports is new
+PROFILE = gen.profile(print=False, intent_none=True, comments=False, layout='nosemi', max_stmts=6, internal=False)
+EXCLUDED_BY_CONSTRUCTION = ('internal procedure that reads host variables not generated '
+                            '(known: host-association-of-internal-procedure)')
 
 KIND_CLASS = {
     'assign': ('Assignment',), 'do': ('Loop',), 'while': ('WhileLoop',), 'if': ('Conditional',), 'if1': ('Conditional',),
@@ -116,3 +121,109 @@ def parse_kernel(rendered, entry_name):
     from loki.frontend import FP
     sf = Sourcefile.from_source(rendered[0]['text'], frontend=FP)
     return sf, sf[entry_name]
+
+
+# ---------------------------------------------------------------------------------------------
+# semantic classification helpers (work on the analysed loki IR; names are compared case-folded)
+# ---------------------------------------------------------------------------------------------
+
+def names_of(symbols):
+    return {str(getattr(s, 'name', s)).lower().split('%')[0] for s in symbols}
+
+
+def loki_bodies(n):
+    """the statement sequences of a loki node in the order in which the attacher walks them"""
+    from loki.ir import nodes as ir
+    if isinstance(n, ir.Conditional):
+        return [tuple(n.body), tuple(n.else_body or ())]
+    if isinstance(n, (ir.MultiConditional, ir.TypeConditional)):
+        return [tuple(b) for b in n.bodies] + [tuple(n.else_body or ())]
+    if isinstance(n, ir.MaskedStatement):
+        return [tuple(b) for b in n.bodies] + [tuple(n.default or ())]
+    if isinstance(n, ir.Interface):
+        return []
+    if isinstance(n, ir.InternalNode):
+        return [tuple(n.body)]
+    return []
+
+
+def definitely_defines(n):
+    """
+    names defined on EVERY path through an analysed loki node: the sound kill set. A loop body may run zero times,
+    a WHERE assigns under a mask, a branch construct defines only what all branches (incl. the implicit empty one) define.
+    """
+    from loki.ir import nodes as ir
+    if isinstance(n, (tuple, list)):
+        out = set()
+        for c in n:
+            out |= definitely_defines(c)
+        return out
+    if isinstance(n, (ir.Loop, ir.WhileLoop, ir.MaskedStatement, ir.Forall)):
+        return set()
+    if isinstance(n, (ir.Conditional, ir.MultiConditional, ir.TypeConditional)):
+        sets = [definitely_defines(b) for b in loki_bodies(n)]
+        out = sets[0]
+        for x in sets[1:]:
+            out = out & x
+        return out
+    if isinstance(n, ir.Associate):
+        inv = {str(v.name).lower(): str(getattr(k, 'name', k)).lower() for k, v in n.associations}
+        return {inv.get(x, x) for x in definitely_defines(tuple(n.body))}
+    if isinstance(n, (ir.Section, ir.PragmaRegion)):
+        return definitely_defines(tuple(n.body))
+    return names_of(n.defines_symbols)
+
+
+def _covers(n, line):
+    src = getattr(n, 'source', None)
+    if src is None or src.lines is None or line is None:
+        return False
+    lo, hi = src.lines[0], src.lines[1] if src.lines[1] is not None else src.lines[0]
+    return lo <= line <= hi
+
+
+def use_drop_cause(n, v, line=None):
+    """
+    ``v`` is read inside the analysed loki node ``n`` (at source line ``line`` if known) before ``n`` wrote it, but
+    ``v`` is not in ``n.uses_symbols``. Mirror of DataflowAnalysisAttacher._visit_body: find the statement sequence in
+    which a child that *does* report the use loses it to the defines of an earlier sibling.
+      'may-define'       all killing siblings define v only on some paths (conditional / zero-trip loop / masked)
+      'definite-define'  a killing sibling defines v on every path (only possible for a *partial* write of an array)
+      'header'           no child reports the use: the node's own expressions (or a leaf) drop it
+      None               a child reports the use and nothing earlier defines v (the block itself dropped it)
+    """
+    from loki.ir import nodes as ir
+    bodies = loki_bodies(n)
+    masked = isinstance(n, ir.MaskedStatement)
+    earlier_bodies = []
+    cands = []
+    for b in bodies:
+        for i, c in enumerate(b):
+            if not isinstance(c, ir.Node):
+                continue
+            if line is not None and not _covers(c, line):
+                continue
+            cands.append((b, i, c, list(earlier_bodies)))
+        if masked:
+            earlier_bodies.append(b)
+    if line is None:
+        # unknown position: prefer a child that reports the use, else descend into every block child
+        rep = [x for x in cands if v in names_of(x[2].uses_symbols)]
+        cands = rep[:1] if rep else cands
+    for b, i, c, prev in cands:
+        if v in names_of(c.uses_symbols):
+            killers = [k for pb in prev for k in pb if isinstance(k, ir.Node) and v in names_of(k.defines_symbols)]
+            killers += [k for k in b[:i] if isinstance(k, ir.Node) and v in names_of(k.defines_symbols)]
+            if not killers:
+                return None
+            return 'definite-define' if any(v in definitely_defines(k) for k in killers) else 'may-define'
+        if loki_bodies(c):
+            sub = use_drop_cause(c, v, line)
+            if sub != 'header' or line is not None:
+                return sub
+    return 'header'
+
+
+def array_names(case):
+    _, _, r = kernel_location(case)
+    return {d['name'].lower() for d in r['decls'] if d.get('dims')}
